@@ -7,7 +7,7 @@ import sys
 import time
 
 VERIF = os.path.dirname(os.path.dirname(os.path.abspath(__file__)))
-REPO = '/repo'
+REPO = os.environ.get('VERIF_REPO', '/repo')   # the tree under test (registered checks: /repo)
 BUILD = os.path.join(VERIF, '_build')
 MODEL_BIN = os.path.join(BUILD, 'ocaml', 'model')
 EVIDENCE = os.path.join(VERIF, 'evidence')
